@@ -10,7 +10,7 @@ EXTENDS SchemaFam
 Sc2 == [
   ets |-> [
     User |-> [attrs |-> [n |-> Req_(TLong), opt |-> Opt_(TLong), mgr |-> Opt_(TEnt("User")),
-                         rec |-> Req_(TRec([inner |-> Opt_(TLong)]))],
+                         rec |-> Req_(TRec([inner |-> Opt_(TLong)])), s |-> Req_(TStr)],
              tags |-> TLong, memberOf |-> {"Group"}, enum |-> {}],
     Group |-> [attrs |-> <<>>, tags |-> NoTags, memberOf |-> {}, enum |-> {}],
     Doc |-> [attrs |-> [owner |-> Req_(TEnt("User")), pub |-> Req_(TBool)],
@@ -41,12 +41,12 @@ ERec(attrs, tags, anc) == [attrs |-> attrs, tags |-> tags, anc |-> anc]
 FunOf(pairs) == [k \in {p[1] : p \in pairs} |-> (CHOOSE p \in pairs : p[1] = k)[2]]
 
 U1Of(opt, mgr, inner, tags, ing) ==
-  ERec(FunOf({<<"n", TL(1)>>, <<"rec", <<"rec", IF inner THEN [inner |-> TL(1)] ELSE <<>>>>>>}
+  ERec(FunOf({<<"n", TL(1)>>, <<"s", <<"str", TagK>>>>, <<"rec", <<"rec", IF inner THEN [inner |-> TL(1)] ELSE <<>>>>>>}
              \cup (IF opt THEN {<<"opt", TL(5)>>} ELSE {})
              \cup (IF mgr = "none" THEN {} ELSE {<<"mgr", IF mgr = "u2" THEN TU2 ELSE TU3>>})),
        IF tags THEN {<<TagK, TL(1)>>} ELSE {},
        IF ing = "g" THEN {TG} ELSE IF ing = "g2" THEN {TG2} ELSE {})
-U2Of(opt) == ERec(FunOf({<<"n", <<"long", I64Max>>>>, <<"rec", <<"rec", <<>>>>>>} \cup (IF opt THEN {<<"opt", TL(5)>>} ELSE {})), {}, {})
+U2Of(opt) == ERec(FunOf({<<"n", <<"long", I64Max>>>>, <<"s", <<"str", <<122>>>>>>, <<"rec", <<"rec", <<>>>>>>} \cup (IF opt THEN {<<"opt", TL(5)>>} ELSE {})), {}, {})
 DOf(owner) == ERec([owner |-> owner, pub |-> <<"bool", TRUE>>], {}, {})
 NoData == ERec(<<>>, {}, {})
 
